@@ -1,6 +1,7 @@
 import RustbusModel.Lemmas.Api
 import RustbusModel.Lemmas.Marshal
 import RustbusModel.Props.C03
+import RustbusModel.Model.MarshalParam
 /-!
 C16 — Dynamic, trait, derive and macro APIs encode and decode identically.
 
@@ -15,16 +16,28 @@ Catchall skipping, and `has_sig`.
 namespace Rustbus.Api
 open Rustbus Rustbus.Bytes Rustbus.Wire Rustbus.Spec.Wire Rustbus.Marshal Rustbus.Enums Rustbus.HasSig
 
-/-- Equivalent values produce identical bytes whichever marshaller runs: both are `enc`. -/
-theorem apis_encode_identically (bo : ByteOrder) (t : Ty) (v : Val) (buf out₁ out₂ : List UInt8)
-    (h₁ : marshalM bo t v buf = some out₁) (h₂ : marshalM bo t v buf = some out₂) :
-    out₁ = out₂ ∧ ∃ bs, enc bo buf.length t v = some bs ∧ out₁ = buf ++ bs := by
-  rw [h₁] at h₂
-  refine ⟨by simpa using h₂, ?_⟩
-  rw [marshalM_eq_enc] at h₁
-  cases he : enc bo buf.length t v with
-  | none => simp [he] at h₁
-  | some bs => exact ⟨bs, rfl, by simpa [he] using h₁.symm⟩
+/-- Equivalent values produce identical bytes whichever marshalling MECHANISM of the model runs: the typed API's fast path
+    for slices of fixed-size elements (length first, element bytes copied: `marshalSliceFastM`), the element-wise path with
+    placeholder and back-patching shared by the traits and the Param API (`marshalM`), and the Param entry point with its
+    nesting guard (`marshalParam`, when it accepts) all append exactly `enc`. (That every Rust API behaves like one of these
+    mechanisms is the correspondence run; derive and macros generate calls to the trait mechanism.) -/
+theorem apis_encode_identically (bo : ByteOrder) (buf : List UInt8) :
+    (∀ (b : Base) (k : Nat) (ns : List Nat), fastElem b = true → b.fixedSize = some k → (∀ n ∈ ns, n < 256 ^ k) →
+      marshalSliceFastM bo b k ns buf = marshalM bo (.array (.base b)) (.arr (ns.map Val.num)) buf) ∧
+    (∀ (t : Ty) (v : Val) (out : List UInt8), marshalParam bo t v buf = some out →
+      marshalM bo t v buf = some out ∧ ∃ bs, enc bo buf.length t v = some bs ∧ out = buf ++ bs) := by
+  constructor
+  · intro b k ns hb hk hn
+    rw [marshalSliceFastM_eq_enc bo b k ns buf hb hk hn, marshalM_eq_enc]
+  · intro t v out h
+    unfold marshalParam at h
+    split at h
+    · refine ⟨h, ?_⟩
+      rw [marshalM_eq_enc] at h
+      cases he : enc bo buf.length t v with
+      | none => simp [he] at h
+      | some bs => exact ⟨bs, rfl, by simpa [he] using h.symm⟩
+    · simp at h
 
 /-- Each decoder returns the value any encoder wrote: decode ∘ encode = id across APIs (C01/C03). -/
 theorem apis_cross_decode (bo : ByteOrder) (t : Ty) (v : Val) (pre bs suf : List UInt8) (nfds : Nat)
@@ -38,7 +51,7 @@ theorem derive_enum_is_variant_of_case (bo : ByteOrder) (buf : List UInt8) (nfds
     (cases : List Ty) (hc : ∀ t ∈ cases, variantTypeOk t = true) (off lim i : Nat) (v : Val) (o' : Nat) :
     decDerive bo buf nfds cases off lim = some (i, v, o') ↔
       ∃ t, findCase cases (sigBytes t) = some (i, t) ∧
-        dec bo buf nfds (maxDepth + 1) .variant off lim = some (.variant t v, o') :=
+        dec bo buf nfds maxDepth .variant off lim = some (.variant t v, o') :=
   decDerive_iff bo buf nfds cases hc off lim i v o'
 
 /-- A macro enum facing a case it does not know skips exactly that value: `Catchall(t)` ending at `o'`
